@@ -7,7 +7,8 @@ import (
 )
 
 // Types is the 6-type vocabulary of media types used by offers and ranges.
-var Types = []string{"application/json", "application/xml", "text/plain", "text/html", "text/csv", "image/png"}
+// two of the types are proper prefixes of siblings (application/json-seq, text/plain-extra): lookups by prefix confuse them
+var Types = []string{"application/json", "application/xml", "text/plain", "text/html", "text/csv", "image/png", "application/json-seq", "text/plain-extra"}
 
 // wildcard and foreign ranges
 var wildRanges = []string{"*/*", "text/*", "application/*", "image/*"}
